@@ -113,6 +113,24 @@ def _eq_fold(callee, x, y, negate, depth=0):
     return None
 
 
+def _fold_int_binop(op, a, b):
+    """comparison / bit operation on two integer constants"""
+    if not (isinstance(a, tuple) and len(a) == 2 and a[0] == "const" and isinstance(a[1], int) and not isinstance(a[1], bool)
+            and isinstance(b, tuple) and len(b) == 2 and b[0] == "const" and isinstance(b[1], int) and not isinstance(b[1], bool)):
+        return None
+    x, y = a[1], b[1]
+    cmpf = {"Lt": x < y, "Le": x <= y, "Gt": x > y, "Ge": x >= y, "Eq": x == y, "Ne": x != y}
+    if op in cmpf:
+        return ("const", 1 if cmpf[op] else 0)
+    if op == "BitAnd":
+        return ("const", x & y)
+    if op == "BitOr":
+        return ("const", x | y)
+    if op == "BitXor":
+        return ("const", x ^ y)
+    return None
+
+
 class Normalizer:
     def __init__(self, program, summaries=None, max_depth=6):
         self.p = program
@@ -209,6 +227,14 @@ class Normalizer:
         if isinstance(t, frozenset):
             return frozenset(self.norm(x, depth) for x in t)
         k = t[0]
+        if k == "const" and isinstance(t[1], str) and self.p is not None:
+            # a named constant whose value is an aggregate (a table of ranges, an array of tuples): its initialiser's value
+            cb = self.p.bodies.get(t[1])
+            if cb is not None and "Const" in str(cb.def_kind) and cb.return_blocks() and depth < 4:
+                v = self.norm(flow.Terms(self.p, cb).place(0, (), cb.return_blocks()[0], "t"), depth + 1)
+                if isinstance(v, tuple) and v and v[0] in ("array", "agg"):
+                    return v
+            return t
         if k in ("const", "param", "upvar", "sym", "in", "opaque", "undef"):
             return t
         if k == "closure":
@@ -242,7 +268,9 @@ class Normalizer:
         if k in ("unop", "cast"):
             return t[:-1] + (self.norm(t[-1], depth),)
         if k == "binop":
-            return ("binop", t[1], self.norm(t[2], depth), self.norm(t[3], depth))
+            a_, b_ = self.norm(t[2], depth), self.norm(t[3], depth)
+            f_ = _fold_int_binop(t[1], a_, b_)
+            return f_ if f_ is not None else ("binop", t[1], a_, b_)
         if k == "with":
             return ("with", self.norm(t[1], depth), frozenset((pth, self.norm(v, depth)) for pth, v in t[2]))
         if k == "upd":
@@ -295,7 +323,7 @@ class Normalizer:
                 x = x[2][0]
             else:
                 break
-        if not (isinstance(x, tuple) and len(x) == 2 and x[0] == "array" and 0 < len(x[1]) <= 8):
+        if not (isinstance(x, tuple) and len(x) == 2 and x[0] == "array" and 0 < len(x[1]) <= 32):
             return None
         items = [("val", e) for e in x[1]]
         for callee, f in reversed(stages):
@@ -838,3 +866,33 @@ def min_of(t):
         if tv == small and fv == big:
             return frozenset((a, b))
     return None
+
+
+def finite_table(S, body, N, param, domain, deep=True):
+    """Evaluate the expanded decision table of `body` for every value of a finite domain of one integer parameter:
+    {value: row}.  The rows are extracted once; for each value the parameter is replaced by the constant in every
+    condition, which is then folded (comparisons, range tests, `any` over constant tables).  A value for which not
+    exactly one row stays feasible, or a condition stays undecided, maps to None.  Nothing of the repository runs."""
+    rws = rows(S, body, N, expand=True, deep=deep)
+    out = {}
+    for k in domain:
+        kc = ("const", k)
+        hit = []
+        undecided = False
+        for o in rws:
+            dead = False
+            for t, l, f, w in o.conds:
+                t2 = N.norm(summary.replace(t, param, kc))
+                ds = dnf_cond(t2, l)
+                if ds == []:
+                    dead = True
+                    break
+                if ds != [[]]:
+                    undecided = True
+                    dead = True
+                    break
+            if not dead:
+                hit.append(o)
+        vals = {flow.strip_sites(N.norm(summary.replace(o.value, param, kc))) for o in hit}
+        out[k] = (hit[0], next(iter(vals))) if len(vals) == 1 and not undecided else None
+    return out
